@@ -6,6 +6,10 @@ VERIF = os.path.dirname(os.path.dirname(os.path.abspath(__file__)))
 props = [json.loads(l) for l in open(os.path.join(VERIF, "properties.jsonl"))]
 
 CLAIMS = {
+ "C19": dict(
+  text="Every wrapper is a record interpreted by a generic Gallina interpreter with the Go function as a parameter. Proved for all records and all argument tuples: exact agreement with the Go function on converted arguments, the first conversion error otherwise, value guards (repeat) give errors, never panics. Every record regenerated from the source by go/ast passes its parameters in declaration order to the specified callee (kernel computation over the regenerated table). Codec inversion is proved from the encoder/decoder law; hex is proved outright; the tree-level JSON round trip is guarded by |int| <= 2^53 and valid UTF-8 with refutation witnesses; json.marshal equals the codec on the JSON domain. Tied by differential runs of every wrapped function through the object API and through scripts against direct Go calls, and of the codecs against an independent Python reference.",
+  note="Trusted: Coq kernel, c19gen (go/ast) and the specification tables (re-validated by executing each record against the implementation), extraction, harness, Python reference codecs. The Go standard library is a parameter; the round-trip law of base64/base32/gzip/urlquery is a section hypothesis tested on every run; 19 irregular wrappers are covered differentially only. Known findings: JSON integers above 2^53, invalid UTF-8 in JSON, byte_slice encoding differs between codec and json.marshal.",
+  technique="Rocq theorems on a regenerated wrapper table + extracted-model correspondence + independent reference oracle", ref="DESIGN.md section 5 C19"),
  "C11": dict(
   text="Gallina model of Config.init (defaults, denylist with dotted module paths, overrides), Module.Override and resolveModule over a labelled object graph regenerated on every run from the running packages (GetAttr closure of two default configurations, 1865 nodes). Proved: the fuelled reachability search is exact for every graph (reach_complete); script access paths (identifier, import, attribute, getattr, __module__) are graph paths and conversely; denying or overriding a registered name - nested to any depth - removes or redirects exactly that edge; for each of the 246 registered names of the generated graph the denied object has no access path (finite domain, kernel computation lifted through forallb_forall); configurations are independent (frame theorem). Tied by differential runs: every single-deny and single-override configuration, nested host-defined module trees, sampled subsets, judged by object identity on the real objects and by risor.Eval access attempts.",
   note="Trusted: Coq kernel, the graph generator (c11gen with the add-only overlay hook VerifAttrNames), extraction, harness. Map-order independence of deny/override lists is observed, not proved. Capability aliases (distinct builtins wrapping one Go function, e.g. os.getenv and getenv) are reported in evidence only.",
